@@ -356,21 +356,45 @@ theorem bboxY_y (r : Region) (a c b d : Int) :
         · exact Or.inr ⟨v, by simp, by omega⟩
       · exact Or.inr ⟨w, by simp [hw], i6⟩
 
-/-- all coordinates are C `int`s and no span starts at `INT_MIN` (the guard of `sraRgnBBox`'s
-`1-INT_MAX` seed) -/
+/-- all coordinates are C `int`s (`INT_MIN ≤ s`, `e ≤ INT_MAX`) — true of every region the C code
+can hold; needed because the model computes in unbounded `Int` while `sraRgnBBox` starts from the
+seeds `INT_MAX` / `INT_MIN` -/
 def InRange (r : Region) : Prop :=
-  ∀ v ∈ r, -intMax ≤ v.s ∧ v.e ≤ intMax ∧ ∀ sp ∈ v.sub, -intMax ≤ sp.s ∧ sp.e ≤ intMax
+  ∀ v ∈ r, -intMax - 1 ≤ v.s ∧ v.e ≤ intMax ∧ ∀ sp ∈ v.sub, -intMax - 1 ≤ sp.s ∧ sp.e ≤ intMax
 
 theorem bbox_nil : Region.bbox [] = [] := by
   simp [Region.bbox, bboxY, intMax, Region.empty]
+
+/-- the result of `sraRgnBBox` is well-formed for every argument (it is empty or one `Region.rect`) -/
+theorem bbox_wf_all (r : Region) : Region.WF (Region.bbox r) := by
+  unfold Region.bbox
+  simp only []
+  split
+  · trivial
+  · exact rect_wf _ _ _ _
+
+/-- `sraRgnBBox` covers the region — for EVERY region (the seeds only matter for tightness).
+Stated without mentioning the seed values, so that users need not track them. -/
+theorem bbox_covers (r : Region) (x y : Int) (h : Region.den r x y) : Region.den (Region.bbox r) x y := by
+  obtain ⟨v, hv, h1, h2, sp, hsp, h3, h4⟩ := h
+  obtain ⟨_, X2, _, _, X5, _⟩ := bboxY_x r intMax intMax (-intMax - 1) (-intMax - 1)
+  obtain ⟨_, Y2, _, _, Y5, _⟩ := bboxY_y r intMax intMax (-intMax - 1) (-intMax - 1)
+  have a1 := X2 v hv sp hsp
+  have a2 := X5 v hv sp hsp
+  have a3 := Y2 v hv
+  have a4 := Y5 v hv
+  unfold Region.bbox
+  simp only
+  rw [if_neg (by omega)]
+  exact (rect_den _ _ _ _ x y).mpr ⟨by omega, by omega, by omega, by omega⟩
 
 theorem bbox_spec (r : Region) (hwf : Region.WF r) (hr : InRange r) (hne : r ≠ []) :
     ∃ x1 y1 x2 y2, Region.bbox r = [⟨y1, y2, [⟨x1, x2, ()⟩]⟩] ∧ x1 < x2 ∧ y1 < y2 ∧
       (∀ x y, Region.den r x y → x1 ≤ x ∧ x < x2 ∧ y1 ≤ y ∧ y < y2) ∧
       (∃ y, Region.den r x1 y) ∧ (∃ y, Region.den r (x2 - 1) y) ∧
       (∃ x, Region.den r x y1) ∧ (∃ x, Region.den r x (y2 - 1)) := by
-  obtain ⟨X1, X2, X3, X4, X5, X6⟩ := bboxY_x r intMax intMax (1 - intMax) (1 - intMax)
-  obtain ⟨Y1, Y2, Y3, Y4, Y5, Y6⟩ := bboxY_y r intMax intMax (1 - intMax) (1 - intMax)
+  obtain ⟨X1, X2, X3, X4, X5, X6⟩ := bboxY_x r intMax intMax (-intMax - 1) (-intMax - 1)
+  obtain ⟨Y1, Y2, Y3, Y4, Y5, Y6⟩ := bboxY_y r intMax intMax (-intMax - 1) (-intMax - 1)
   have hall := Sorted.all hwf
   -- a witness band and span
   obtain ⟨v0, r', rfl⟩ : ∃ v0 r', r = v0 :: r' := by
@@ -386,7 +410,7 @@ theorem bbox_spec (r : Region) (hwf : Region.WF r) (hr : InRange r) (hne : r ≠
   have hs0lt := (Sorted.all hv0.2.1 s0 hs0m).1
   have hr0 := hr v0 (by simp)
   have hr0s := hr0.2.2 s0 hs0m
-  generalize hR : bboxY (v0 :: r') (intMax, intMax, 1 - intMax, 1 - intMax) = R at *
+  generalize hR : bboxY (v0 :: r') (intMax, intMax, -intMax - 1, -intMax - 1) = R at *
   have x2s := X2 v0 (by simp) s0 hs0m
   have x5s := X5 v0 (by simp) s0 hs0m
   have y2s := Y2 v0 (by simp)
@@ -398,7 +422,7 @@ theorem bbox_spec (r : Region) (hwf : Region.WF r) (hr : InRange r) (hne : r ≠
     · exact h
   have hX6 : ∃ v ∈ v0 :: r', ∃ sp ∈ v.sub, sp.e = R.2.2.1 := by
     rcases X6 with h | h
-    · exact ⟨v0, by simp, s0, hs0m, by omega⟩
+    · exfalso; omega
     · exact h
   have hY3 : ∃ v ∈ v0 :: r', v.s = R.2.1 := by
     rcases Y3 with h | h
@@ -406,7 +430,7 @@ theorem bbox_spec (r : Region) (hwf : Region.WF r) (hr : InRange r) (hne : r ≠
     · exact h
   have hY6 : ∃ v ∈ v0 :: r', v.e = R.2.2.2 := by
     rcases Y6 with h | h
-    · exact ⟨v0, by simp, by omega⟩
+    · exfalso; omega
     · exact h
   refine ⟨R.1, R.2.1, R.2.2.1, R.2.2.2, ?_, by omega, by omega, ?_, ?_, ?_, ?_, ?_⟩
   · simp only [Region.bbox, hR]
